@@ -559,6 +559,8 @@ func parsePromQLFunc(s Source, expr string, n *promParser.Call) Source {
 
 	case "absent", "absent_over_time":
 		s.Returns = promParser.ValueTypeVector
+		// absent() returns something only when its argument returns nothing.
+		s.AlwaysReturns = false
 		s.FixedLabels = true
 		s.IncludedLabels = nil
 		s.GuaranteedLabels = nil
